@@ -4,12 +4,12 @@
 # (2) the demonstration fails with the change; (3) passes without it. Writes <dir>/confirm.log, prints a verdict.
 D=$(readlink -f "$1"); CR=${2:-mla}
 WT=/tmp/seedconf/wt-$(basename $D)
-export CARGO_TARGET_DIR=/tmp/seedconf/target CARGO_NET_OFFLINE=true
+export CARGO_TARGET_DIR=/tmp/seedconf/target${LANE:-} CARGO_NET_OFFLINE=true
 mkdir -p /tmp/seedconf
 git -C /repo worktree add --detach $WT HEAD >/dev/null 2>&1
 LOG=$D/confirm.log; : > $LOG
 cd $WT
-cp $D/demo.rs $CR/tests/zz_seed_demo.rs
+mkdir -p $CR/tests; cp $D/demo.rs $CR/tests/zz_seed_demo.rs
 cargo test -p $(basename $CR) --offline --test zz_seed_demo >>$LOG 2>&1; R0=$?
 git apply $D/patch.diff || { echo "PATCH DOES NOT APPLY" | tee -a $LOG; }
 cargo test -p $(basename $CR) --offline --test zz_seed_demo >>$LOG 2>&1; R1=$?
